@@ -270,6 +270,9 @@ impl<'a> A<'a> {
     fn wd(&self) -> Weekday {
         Weekday::from_monday_zero_offset((self.a.wd % 7) as i8).unwrap()
     }
+    fn tzname(&self) -> &'static str {
+        ["UTC", "America/New_York", "Australia/Lord_Howe", "Pacific/Apia", "Europe/London", "america/new_york", "no/such_zone", ""][(self.a.sel >> 2) as usize % 8]
+    }
     fn sel(&self) -> u8 {
         self.a.sel
     }
@@ -718,6 +721,11 @@ pub static ROWS: &[Row] = rows![
     "ZonedWith::time.offset" => |a| res(a.zd1().with().time(a.t2()).offset(a.off1()).offset_conflict(a.conflict()).disambiguation(a.disambiguation()).build()),
     "Zoned::with_time_zone" => |a| val(a.zd1().with_time_zone(a.tz2())),
     "Zoned::duration_until" => |a| val(a.zd1().duration_until(&a.zd2())),
+    // ---- lookups by name in the global database (/usr/share/zoneinfo; deterministic here)
+    "Date::in_tz" => |a| res(a.d1().in_tz(a.tzname())),
+    "DateTime::in_tz" => |a| res(a.dt1().in_tz(a.tzname())),
+    "Timestamp::in_tz" => |a| res(a.ts1().in_tz(a.tzname())),
+    "Zoned::in_tz" => |a| res(a.zd1().in_tz(a.tzname())),
     // ---- Span
     "Span::try_years" => |a| res(Span::new().try_years(a.n1())),
     "Span::try_months" => |a| res(Span::new().try_months(a.n1())),
@@ -1067,7 +1075,7 @@ fn replay_none(_: Value) -> CaseResult {
 pub fn property() -> Property {
     Property {
         id: "C05",
-        level: "randomized differential exploration: every row of a 190-row table of public fallible operations is called with limit-biased arguments in two builds of the same harness (debug assertions + overflow checks on / release) and must not panic in either, must return in-range values and must return the same answer in both",
+        level: "randomized differential exploration: every row of a table of ~180 public fallible operations (exact count in the evidence note `api_rows`) is called with limit-biased arguments in two builds of the same harness (debug assertions + overflow checks on / release) and must not panic in either, must return in-range values and must return the same answer in both",
         rule: "a case is non-trivial when an argument it actually read is at or next to a limit of its type (year +-9998/9999, first/last ns of the day, within 2 days of Timestamp::MIN/MAX, a span unit at its limit, i64/i32/i16/i8 MIN/MAX, offset +-93598/93599, increment <= 0 or i64::MAX, non-finite or >= 2^63 float) or the call returned Err or panicked",
         assumptions: &[
             "the `dbg` profile (opt-level 2, debug-assertions and overflow-checks on) stands for 'with debug assertions', the `rel` profile for 'without'; both build /repo's working tree",
